@@ -425,6 +425,9 @@ static std::unique_ptr<scope_ns::ScopeConfigurator<Config>> build_conf(const std
     else
       b.AddCondition([arg](const scope_ns::InstrumentationScope &s) { return s.GetName().compare(0, arg.size(), arg) == 0; }, c);
   }
+  // a builder is a value: building from it does not use it up (a second provider is configured from the same rule list)
+  auto first = b.Build();
+  (void)first;
   return std::unique_ptr<scope_ns::ScopeConfigurator<Config>>(new scope_ns::ScopeConfigurator<Config>(b.Build()));
 }
 
